@@ -100,6 +100,11 @@ func checkFloatCarrier(x float64) string {
 	if stage, rerr, _ := roundTrip(mix); rerr != nil {
 		return fmt.Sprintf("typed map followed by []float32, []float64, []float64: %s: %v", stage, rerr)
 	}
+	// lists whose element type is a named float type
+	named := &zoo.NamedLists{R: []zoo.Ratio{zoo.Ratio(x), 2.5, zoo.Ratio(x)}, Sm: []zoo.Small{zoo.Small(f32), 0.5}}
+	if stage, rerr, _ := roundTrip(named); rerr != nil {
+		return fmt.Sprintf("lists of named float types ([]Ratio with Ratio float64, []Small with Small float32): %s: %v", stage, rerr)
+	}
 	// every double on the wire in its shortest exact form
 	a, _, derr := refcodec.Decode(b)
 	if derr != nil {
